@@ -247,6 +247,10 @@ func ruleR20b2(c *Check) {
 					if a.Op == "nil" || a.Op == "nonnil" {
 						guard = true
 					}
+					// so is the bookkeeping of an explicit frame stack: `if frame.next >= len(frame.neighbours)`
+					if isIndexBoundAtom(a) {
+						guard = true
+					}
 				}
 			}
 			if !guard {
@@ -255,6 +259,38 @@ func ruleR20b2(c *Check) {
 		}
 		c.Require(extra == 0, "R20c", "descent-unconditional/"+fname, "only the visited test guards the descent", "the walk is pruned by an additional condition (a filter/predicate inside the traversal): nodes reachable only through a non-matching node are silently dropped from transitive queries", c.P.InstrPos(t.Site))
 	}
+}
+
+// isIndexBoundAtom: an index compared with the length of a list (manual iteration over a stored neighbour list).
+func isIndexBoundAtom(a engine.Atom) bool {
+	switch a.Op {
+	case "lt", "le", "gt", "ge":
+		if _, ok := lenArg(a.V); ok {
+			return true
+		}
+		if a.Other != nil {
+			if _, ok := lenArg(a.Other); ok {
+				return true
+			}
+		}
+	}
+	return false
+}
+
+// isListExhaustedAtom: the edge on which a manually advanced index has reached the length of its list
+// (`idx >= len(xs)` true, or `idx < len(xs)` false).
+func isListExhaustedAtom(a engine.Atom) bool {
+	switch a.Op {
+	case "ge", "gt":
+		if a.Other != nil {
+			_, ok := lenArg(a.Other)
+			return ok
+		}
+	case "le", "lt":
+		_, ok := lenArg(a.V)
+		return ok
+	}
+	return false
 }
 
 // poppedFromWorklist: every appended element of `app` is read from the slice that `push` extends.
